@@ -214,6 +214,9 @@ VIOL_RE = re.compile(r'<<"VIOL", "([A-Z0-9]+)", "([A-Za-z0-9_]+)", (\d+), (\d+)>
 DRIFT_RE = re.compile(r'<<"DRIFT", (\d+), (\d+), "([^"]*)"')
 
 
+RACE_RE = re.compile(r'<<"RACE", (\d+), <<"([a-z]+)", "([a-z]+)">>, <<"([a-z]+)", "([a-z]+)">>>>')
+
+
 def validate_trace(trace, module, cfgfile, tag, constants_env=None, parts=None, timeout=1200):
     """Run a trace spec over the trace (split over several TLC processes).
     Returns dict(viol=[(prop,pred,line,arena)], drift=[(line,arena,what)], events=n) with GLOBAL 1-based lines."""
@@ -234,7 +237,7 @@ def validate_trace(trace, module, cfgfile, tag, constants_env=None, parts=None, 
         rc, out = run_tlc(sub, module, cfgfile, workers=1, env=env, timeout=timeout, heap="3g")
         return fn, base, rc, out
 
-    viol, drift = [], []
+    viol, drift, races = [], [], []
     with ThreadPoolExecutor(max_workers=parts) as ex:
         for fn, base, rc, out in ex.map(one, files):
             if "TRACE-CONSUMED" not in out:
@@ -244,7 +247,9 @@ def validate_trace(trace, module, cfgfile, tag, constants_env=None, parts=None, 
                 viol.append((m.group(1), m.group(2), int(m.group(3)) + base, int(m.group(4))))
             for m in DRIFT_RE.finditer(out):
                 drift.append((int(m.group(1)) + base, int(m.group(2)), m.group(3)))
-    return {"viol": viol, "drift": drift, "events": len(lines), "lines": lines}
+            for m in RACE_RE.finditer(out):
+                races.append((int(m.group(1)) + base, "%s-%s" % (m.group(2), m.group(3)), "%s-%s" % (m.group(4), m.group(5))))
+    return {"viol": viol, "drift": drift, "races": races, "events": len(lines), "lines": lines}
 
 
 def locate(lines, gline):
